@@ -290,8 +290,20 @@ func c19SchedUnit(scope, tier string, part, parts int) core.Unit {
 		// pairs) against each other; a shared value's first use racing with itself matters most
 		for i := limit; i < nOps; i++ {
 			for j := i; j < nOps; j++ {
+				if tier != "thorough" && j > i+2 {
+					break // quick: each extra operation with itself and its two neighbours in the menu
+				}
 				pairs = append(pairs, pair{i, j})
 			}
+		}
+		{
+			kept := pairs[:0]
+			for _, p := range pairs {
+				if !sc.Ops[p.i].Heavy && !sc.Ops[p.j].Heavy {
+					kept = append(kept, p)
+				}
+			}
+			pairs = kept
 		}
 		if scope == "vers" && tier != "thorough" {
 			// VERS calls are ~10x longer: the first three calls against each other, and every pair of
